@@ -74,6 +74,8 @@ def main():
             a = a[1:]
     target = os.path.join(wt, "target")
     mdir = os.path.join(wt, "mutations")
+    # evaluate against the repository's current HEAD (fixes committed since the change was authored included)
+    sh("git checkout -- . && git checkout -q --detach $(git -C /repo rev-parse HEAD)", wt)
     results = []
     for k in sorted(os.listdir(mdir)):
         d = os.path.join(mdir, k)
